@@ -221,13 +221,16 @@ def rule_M5(ctx: Ctx) -> None:
     ifs = [n for n in rd.node.body if isinstance(n, ast.If)]
     ok = None
     slot = {}
-    if len(ifs) == 1:
-        t = N.boolean_nf(ifs[0].test)
+    if ifs:
+        first = ifs[0]
+        t = N.boolean_nf(first.test)
         want = N.boolean_nf(X.expr_of("self.generation_meta is None or self.generation_meta.get('fully_connected', False)"))
         slot["condition"] = N.nf_str(t)
-        then_ret = [s for s in ifs[0].body if isinstance(s, ast.Return)]
-        else_has_raise = any(isinstance(s, ast.Raise) for s in ast.walk(ast.Module(body=ifs[0].orelse, type_ignores=[])))
-        else_ret = [s for s in ast.walk(ast.Module(body=ifs[0].orelse, type_ignores=[])) if isinstance(s, ast.Return)]
+        then_ret = [s for s in first.body if isinstance(s, ast.Return)]
+        rest = list(first.orelse) + rd.node.body[rd.node.body.index(first) + 1:]
+        rest_mod = ast.Module(body=rest, type_ignores=[])
+        else_has_raise = any(isinstance(s, ast.Raise) for s in ast.walk(rest_mod))
+        else_ret = [s for s in ast.walk(rest_mod) if isinstance(s, ast.Return)]
         ok = N.nf_key(t) == N.nf_key(want) and len(then_ret) == 1 and X.U(then_ret[0].value) == "self.get_nodes()" and else_has_raise \
             and len(else_ret) == 1 and "visited_cells" in X.U(else_ret[0].value)
         if N.nf_key(t) != N.nf_key(want):
